@@ -345,3 +345,76 @@ def unexpected_carried(prog: Program, fi: FuncInfo, h: Node) -> tuple[set[str], 
         if appends_only and not other_reads:
             allowed.add(v)
     return carried, allowed
+
+
+def check_memo_keys(ctx, rule_id: str, module_prefixes: tuple[str, ...], minimum: int = 0) -> int:
+    """R-MEMO: a value stored in a table that outlives the call (`table[key] = value` with the table a closure variable of an
+    enclosing function, a module-level name or an attribute of self) must be keyed by everything it was computed from:
+    params(value) - params(key) = {} (both through data *and* control dependence). Otherwise a later call that differs in
+    an uncovered input is handed the answer computed for another one (a wrapped segment with the wrong first-line indent,
+    a sentence wrapped for another column ...). Returns the number of memo stores seen."""
+    prog = ctx.prog
+    n = 0
+    for fi in prog.repo.functions.values():
+        if not fi.module.name.startswith(module_prefixes) or isinstance(fi.node, ast.Lambda) or fi.name == "__init__":
+            continue
+        flow = prog.flow(fi)
+        selfname = fi.params[0] if fi.cls is not None and fi.params else None
+        local_names = {d.var for d in flow.defs if d.kind not in ("param", "mutate", "effect")} | set(fi.params)
+        for node in flow.cfg.nodes:
+            if node.kind != "stmt" or not isinstance(node.ast, ast.Assign) or len(node.ast.targets) != 1:
+                continue
+            t = node.ast.targets[0]
+            if not isinstance(t, ast.Subscript):
+                continue
+            tab = t.value
+            persistent = False
+            if isinstance(tab, ast.Attribute) and isinstance(tab.value, ast.Name) and tab.value.id == selfname:
+                persistent = True
+            elif isinstance(tab, ast.Name) and tab.id not in local_names:
+                # a free variable: bound in an enclosing function (closure-level table) or at module level
+                f_ = fi.parent
+                while f_ is not None and not persistent:
+                    persistent = tab.id in prog.flow(f_).defs_of_var
+                    f_ = f_.parent
+                if not persistent:
+                    from ..loader import ConstInfo
+                    persistent = isinstance(prog.repo.lookup(tab.id, fi.module, fi), ConstInfo)
+            if not persistent:
+                continue
+            # a memo is looked up before it is filled: table.get(k) / k in table / table[k] read in the same function
+            # (a table that is only written - an accumulator handed back to the caller - is not one)
+            tab_txt = norm(tab)
+            looked_up = False
+            for x in ast.walk(fi.node):
+                if isinstance(x, ast.Call) and isinstance(x.func, ast.Attribute) and x.func.attr in ("get", "setdefault") and norm(x.func.value) == tab_txt:
+                    looked_up = True
+                elif isinstance(x, ast.Compare) and len(x.ops) == 1 and isinstance(x.ops[0], (ast.In, ast.NotIn)) and norm(x.comparators[0]) == tab_txt:
+                    looked_up = True
+                elif isinstance(x, ast.Subscript) and isinstance(x.ctx, ast.Load) and norm(x.value) == tab_txt:
+                    looked_up = True
+            if not looked_up:
+                continue
+            # ... and the store happens on the miss: it is controlled by a test on that lookup (an assert is not such a test)
+            on_miss = False
+            for b, _lab in all_guards(prog, fi, node):
+                if b.kind != "test" or isinstance(b.owner, ast.Assert):
+                    continue
+                names_ = {x.id for x in ast.walk(b.ast) if isinstance(x, ast.Name)}
+                via_lookup = tab_txt in norm(b.ast)
+                for nm_ in names_:
+                    for d in flow.reaching(b, nm_):
+                        if d.value is not None and tab_txt in norm(d.value):
+                            via_lookup = True
+                on_miss = on_miss or via_lookup
+            if not on_miss:
+                continue
+            n += 1
+            key_params = prog.slice(fi, t.slice, node).params() - {selfname}
+            val_params = prog.slice(fi, node.ast.value, node, control=False).params() - {selfname}
+            extra = val_params - key_params
+            ctx.ob(rule_id, f"{fi.qual} :: {norm(t)} keyed by all inputs of the cached value", not extra,
+                   f"the cached value depends on {sorted(val_params)} but the key only on {sorted(key_params)}: a later call that differs in "
+                   f"{sorted(extra)} gets the answer computed for another input", where(fi, node))
+    ctx.require(rule_id, "memo stores", n, minimum)
+    return n
